@@ -1,4 +1,6 @@
 """C02 — init persists exactly; open is lazy; lookup by id / unique prefix."""
+import pickle
+import copy
 import hashlib
 import json
 import os
@@ -26,7 +28,7 @@ RULE = (
 )
 CLASSES = [
     "ambiguous_prefix_len1", "ambiguous_prefix_len2", "ambiguous_prefix_len3+", "unique_prefix", "reinit",
-    "mutated_after_open", "fresh_process", "uninitialised_lookup", "typed_values", "lost_spfile_reinit", "symlinked_job_dir", "relative_project_path_then_chdir", "bulk_workspace",
+    "mutated_after_open", "fresh_process", "uninitialised_lookup", "typed_values", "lost_spfile_reinit", "symlinked_job_dir", "relative_project_path_then_chdir", "bulk_workspace", "handle_pickled_or_copied", "searched_between_steps",
 ]
 ASSUMPTIONS = [
     "'unknown id raises KeyError' is asserted only in a fresh project without a persistent cache file",
@@ -76,14 +78,15 @@ def job_sets(draw):
     return sps[:12] or [{"k": 0}]
 
 
-OPS = ["open", "access_sp", "mutate_caller", "init", "init", "reinit", "fresh", "fresh_rel", "lookup_uninit", "lost_spfile_reinit", "relocate_symlink"]
+OPS = ["open", "access_sp", "mutate_caller", "init", "init", "reinit", "fresh", "fresh_rel", "lookup_uninit", "lost_spfile_reinit", "relocate_symlink",
+       "pickle_handle", "copy_handle", "deepcopy_handle", "search", "open_by_id"]
 
 
 @st.composite
 def cases(draw):
     sps = draw(job_sets())
     ops = draw(st.lists(st.tuples(st.sampled_from(OPS), st.integers(0, 11)), max_size=24))
-    return {"sps": sps, "ops": [{"op": o, "i": i} for o, i in ops], "final_init": draw(st.integers(0, 4)) != 0}
+    return {"sps": sps, "ops": [{"op": o, "i": i} for o, i in ops], "final_init": draw(st.integers(0, 4)) != 0, "final_search": draw(st.booleans())}
 
 
 def _typed(sp):
@@ -101,6 +104,28 @@ def _mutate(d):
         else:
             d[k] = "__changed__"
     d["__new__"] = 1
+
+
+def _has_tuple(v):
+    """A state point read back holds lists where lists were given (JSON has no tuples)."""
+    if isinstance(v, tuple):
+        return True
+    if isinstance(v, dict) or hasattr(v, "items"):
+        return any(_has_tuple(x) for x in v.values())
+    if isinstance(v, list):
+        return any(_has_tuple(x) for x in v)
+    return False
+
+
+def _search(project, sps):
+    """Read-only use of the project between other steps: filtered searches over every key, schema detection."""
+    keys = sorted({k for sp in sps for k in sp})
+    # (what the searches answer, and whether they accept such keys / values at all, is the business of C06 / C18)
+    for call in [lambda k=k: list(project.find_jobs({k: {"$exists": True}})) for k in keys] + [lambda: list(project.find_jobs()), project.detect_schema]:
+        try:
+            call()
+        except Exception:
+            pass
 
 
 def run_case(case, ctx):
@@ -167,6 +192,8 @@ def _run_case(case, ctx):
                 mms.append(Mismatch("handle_sp", f"{where}: statepoint() {job.statepoint()!r} != {sps[i]!r}"))
             if oracle.canon(dict(job.cached_statepoint)) != oracle.canon(sps[i]):
                 mms.append(Mismatch("handle_sp", f"{where}: cached_statepoint {dict(job.cached_statepoint)!r} != {sps[i]!r}"))
+            if _has_tuple(job.statepoint()) or _has_tuple(dict(job.cached_statepoint)):
+                mms.append(Mismatch("handle_sp", f"{where}: the state point read back holds tuples: {job.statepoint()!r} / {dict(job.cached_statepoint)!r} for {sps[i]!r}"))
         except Exception as e:
             mms.append(Mismatch("handle_sp", f"{where}: reading the state point of {sps[i]!r} raised {type(e).__name__}: {e}"))
 
@@ -260,6 +287,33 @@ def _run_case(case, ctx):
                     pass
                 except Exception as e:
                     mms.append(Mismatch("unknown_id", f"open_job(id=<id of never initialised {sps[i]!r}>) raised {type(e).__name__}, expected KeyError"))
+        elif name in ("pickle_handle", "copy_handle", "deepcopy_handle"):
+            # the handle travels (to a worker process, into a list of copies) in whatever state it is in --
+            # opened only, read, initialised -- and what arrives is used from then on
+            job, caller = get_handle(i)
+            try:
+                job2 = {"pickle_handle": lambda j: pickle.loads(pickle.dumps(j)), "copy_handle": copy.copy, "deepcopy_handle": copy.deepcopy}[name](job)
+            except Exception as e:
+                mms.append(Mismatch("handle_sp", f"{name[:-7]} of a handle on {sps[i]!r} raised {type(e).__name__}: {e}"))
+                continue
+            handles[i] = (job2, caller)
+            cl.add("handle_pickled_or_copied")
+        elif name == "search":
+            try:
+                _search(project, sps)
+                cl.add("searched_between_steps")
+            except Exception as e:
+                mms.append(Mismatch("listing", f"searching the project (find_jobs / detect_schema) raised {type(e).__name__}: {e}"))
+            for k in sorted(handles):
+                check_handle(k, "after read-only searches")
+        elif name == "open_by_id":
+            # a second handle, obtained by id, replaces the one opened by state point
+            if i in inited:
+                try:
+                    handles[i] = (project.open_job(id=ids[i]), handles[i][1] if i in handles else json.loads(json.dumps(sps[i])))
+                    check_handle(i, "opened by id")
+                except Exception as e:
+                    mms.append(Mismatch("reopen_exact", f"open_job(id=...) of initialised {sps[i]!r} raised {type(e).__name__}: {e}"))
         elif name == "fresh":
             project = signac.Project(root)
             handles.clear()
@@ -288,6 +342,12 @@ def _run_case(case, ctx):
     nontrivial = any(_typed(sps[i]) for i in inited)
     if nontrivial:
         cl.add("typed_values")
+    if case.get("final_search"):
+        try:
+            _search(fresh, [sps[i] for i in inited])
+            cl.add("searched_between_steps")
+        except Exception as e:
+            mms.append(Mismatch("listing", f"searching the fresh project (find_jobs / detect_schema) raised {type(e).__name__}: {e}"))
     for i in range(n):
         jid = ids[i]
         for plen in range(1, 33):
@@ -312,6 +372,8 @@ def _run_case(case, ctx):
                     try:
                         if oracle.canon(job.statepoint()) != oracle.canon(sps[k]) or oracle.canon(dict(job.cached_statepoint)) != oracle.canon(sps[k]):
                             mms.append(Mismatch("reopen_exact", f"open_job(id={p!r}).statepoint() = {job.statepoint()!r}, expected {sps[k]!r}"))
+                        elif _has_tuple(job.statepoint()) or _has_tuple(dict(job.cached_statepoint)):
+                            mms.append(Mismatch("reopen_exact", f"open_job(id={p!r}) reads tuples: statepoint() = {job.statepoint()!r}, cached_statepoint = {dict(job.cached_statepoint)!r}, expected {sps[k]!r}"))
                     except Exception as e:
                         mms.append(Mismatch("reopen_exact", f"statepoint() after open_job(id={p!r}) raised {type(e).__name__}: {e}"))
             elif len(matches) > 1:
@@ -372,6 +434,12 @@ def run(ctx):
         ctx.apply({"sps": [{}, {"k": 1}], "ops": [{"op": "open", "i": 0}, {"op": "access_sp", "i": 1}, {"op": "lookup_uninit", "i": 1}, {"op": "init", "i": 0}, {"op": "fresh", "i": 0}, {"op": "access_sp", "i": 0}], "final_init": False})
         ctx.apply({"sps": [{"a": 1.0, "b": [True, None, {"c": "é"}]}, {"a": 1}, {"a": True}, {}], "ops": [{"op": "init", "i": 0}, {"op": "init", "i": 1}, {"op": "init", "i": 2}, {"op": "init", "i": 3}, {"op": "reinit", "i": 0}], "final_init": False})
         ctx.apply({"sps": [{"k": 1}, {"k": 2, "n": {"x": [1]}}, {"k": 3}], "ops": [{"op": "init", "i": 0}, {"op": "fresh_rel", "i": 0}, {"op": "init", "i": 1}, {"op": "access_sp", "i": 1}, {"op": "fresh_rel", "i": 1}, {"op": "init", "i": 2}, {"op": "reinit", "i": 0}], "final_init": False})
+        # a handle that was only opened travels through pickle / copies before it is used; read-only searches in between
+        for how in ("pickle_handle", "copy_handle", "deepcopy_handle"):
+            ctx.apply({"sps": [{"k": 1, "l": [1, [2, 3]]}, {"k": 2}], "ops": [{"op": "open", "i": 0}, {"op": how, "i": 0}, {"op": "init", "i": 0}, {"op": "access_sp", "i": 0},
+                                                                         {"op": "open", "i": 1}, {"op": "access_sp", "i": 1}, {"op": how, "i": 1}, {"op": "init", "i": 1}], "final_init": False})
+        ctx.apply({"sps": [{"a": 1, "l": [1, 2]}, {"a": 2, "n": {"l": [[1], [2, 3]]}}, {"a": 3}], "ops": [{"op": "init", "i": 0}, {"op": "init", "i": 1}, {"op": "fresh", "i": 0}, {"op": "open_by_id", "i": 0},
+                                                                                                  {"op": "search", "i": 0}, {"op": "open_by_id", "i": 1}, {"op": "access_sp", "i": 1}], "final_init": False, "final_search": True})
     for i, n in enumerate([2003] if ctx.tier == "quick" else [1999, 2003, 3001]):
         if (i + 1) % ctx.nworkers == ctx.worker:
             ctx.apply({"kind": "bulk", "n": n})
